@@ -22,5 +22,5 @@ PROP = Property(
 META = {
     "text": "Proof: for the collector as coded (timeoutCollector.add / deleteOldViews) and every held list, message and quorum size: collector_exact (a fresh message of view v reports a quorum iff, with it, at least quorum messages OF VIEW v are held; exactly those are returned and removed; otherwise it is kept), add_duplicate (same view and sender: ignored), other_views_untouched (messages of other views neither count nor are removed), add_keyed (one message per view and sender, always); tc_verifies: the view signatures of >= quorum accepted messages (sender-signed, single, verified — what OnRemoteTimeout admits) of pairwise different senders combine and the TC passes VerifyTimeoutCert at every replica with the configuration (uses the general completeness theorem combine_single_verifies over all three schemes). tc_accepted / tc_moves: a verifying TC for a view >= the replica's view is accepted by both timeout rules and makes advanceView end in the next view. Aggregate QC (Props/C08Agg): agg_batch_verifies (the message signatures of any >= 2 accepted timeout messages of one view from distinct senders combine and batch-verify, all three schemes), agg_verifies (with a quorum of them and at least one verifying carried QC the assembled aggregate QC passes VerifyAggregateQC and reports a verifying carried QC of maximal view), agg_rejected_of_qcless / agg_verifies_counterexample (as found: one accepted QC-less timeout made the assembled aggregate QC unverifiable — repaired). Tie: (a) the unexported collector through an overlay export: all sequences of <= 5 messages over 3 views x 4 senders (thorough; <= 4 quick) plus random sequences with far-future views and clean-ups, against the model and an ideal per-view-set oracle; (b) the real replica driven with interleaved timeouts of several views from honest and Byzantine senders (future views, duplicates, junk / absent / copied signatures, wrong or missing message signature, id 0), both timeout rules, n in {4,5,7}, replica at, behind and ahead of the timed-out view.",
     "note": "Trusted: as C03. Three genuine defects found here are fixed (per-view counting; sender must be the signer, message signature checked; aggregate QC built for the timed-out view).",
-    "technique": "Lean 4 theorems on the collector function and certificate completeness + exhaustive small-scope and replica-level differential correspondence",
+    "technique": "Lean 4 theorems on the collector function and certificate completeness + Go->Lean translation of timeoutCollector.add/deleteOldViews with bridging theorems (Props/C08Gen) + exhaustive small-scope and replica-level differential correspondence",
 }
